@@ -6,7 +6,7 @@ from vlib import progspace as ps
 LEVEL = "exploration"
 RULE = ("Bounded-exhaustive: the C01 program space (AST size <= S) with two extra leaves, probe() as a statement and "
         "probe() nested in a call expression (non-empty value stack), rendered as plain function, generator, coroutine "
-        "and async generator (bodies of size <= 3 a second time with one re-entrant manager object per kind serving every with-block, and a third time - those that can raise - with managers whose __exit__/__aexit__ raises a new exception where the default ones swallow), plus 28 deeply nested programs (6-15 managers in one frame: one multi-item statement, nested statements, withs between many try blocks; plain function and coroutine); every decision path; at every probe in the body and inside every __enter__/__exit__/"
+        "and async generator, every `try: raise / except <never matches>: A / except E: B` over small with-bodies A, B (bodies of size <= 3 a second time with one re-entrant manager object per kind serving every with-block, and a third time - those that can raise - with managers whose __exit__/__aexit__ raises a new exception where the default ones swallow), plus 28 deeply nested programs (6-15 managers in one frame: one multi-item statement, nested statements, withs between many try blocks; plain function and coroutine); every decision path; at every probe in the body and inside every __enter__/__exit__/"
         "__aenter__ (before/after its await)/__aexit__ (before/after its await) the probe walks f_back to the target "
         "frame and compares extract_since(frame).frames[0].contexts and contexts_active_in_frame(frame, None, next_inner) "
         "with the shadow model (entering manager not listed; exiting manager listed last, is_exiting, obj identical). "
@@ -162,6 +162,19 @@ def run(ctx):
                 continue
             npaths, nobs = run_program(body, kind, ctx, make_observer, ns=ps.NS_RAISING)
             ctx.count("raising_exit_programs")
+            ctx.count("distinct_nontrivial")
+            ctx.count("paths", npaths)
+            ctx.count("evaluations", nobs)
+    for body in ps.two_clause_programs(g3, 2 if ctx.tier == "quick" else 3):
+        # a with-block in the second except clause of a try whose first clause holds blocks too
+        for kind in KINDS:
+            if not ps.kind_ok(body, kind):
+                continue
+            idx += 1
+            if not ctx.mine(idx):
+                continue
+            npaths, nobs = run_program(body, kind, ctx, make_observer, ns=ps.NS_MIXED)
+            ctx.count("two_clause_programs")
             ctx.count("distinct_nontrivial")
             ctx.count("paths", npaths)
             ctx.count("evaluations", nobs)
